@@ -25,7 +25,7 @@ pub fn fast_gnp_random_graph(
     directed: bool,
     seed: Option<u64>,
 ) -> Result<Graph<i32, ()>, Error> {
-    if edge_probability <= 0.0 || edge_probability >= 1.0 {
+    if !(edge_probability > 0.0 && edge_probability < 1.0) {
         return Err(Error {
             kind: ErrorKind::InvalidArgument,
             message: format!(
